@@ -13,7 +13,10 @@ PROP = {
                   "filterable record (in answer order) whose value is blocked => the C01 blocking-mode response for "
                   "the question's type and no upstream record delivered, query-log entry carries original_answer; "
                   "otherwise, and under every gate (protection off, filtering off globally or for the client, query "
-                  "allow-listed), the upstream answer unchanged (ipv6hint removal with AAAA disabled). Exploration.",
+                  "allow-listed), the upstream answer unchanged (ipv6hint removal with AAAA disabled). In half of the "
+                  "cases the proxy's DNS cache is on and the query is sent 2-3 times: answers served from the cache "
+                  "must be judged like fresh ones. Answers are compared in wire form (SVCB parameters ordered by key). "
+                  "Exploration.",
     "level_note": "urlfilter matching and miekg/dns are trusted; the rewritten-query gate is covered in C06's response "
                   "test, not here.",
     "tests": [
